@@ -1,6 +1,132 @@
-(* C26 - placeholder while the model is being tied to the code *)
-From Coq Require Import List ZArith Bool.
+(* C26 - the pool recovers from any fault without leaking or reusing dead connections.
+   Statements only; every proof is [exact <lemma>] or a closed computation on a witness.
+   Model: engine/PoolSeq.v (sequential record/fairy life cycle of the five pool classes, every DBAPI
+   call consulting a fault script). *)
+From Coq Require Import List ZArith Bool Arith.
 Import ListNotations.
-From SAV.engine Require Import PoolSeq.
-Example c26_placeholder : kind (mkcfg KQueue 1 0 false (-1) false false RRollback true) = KQueue.
-Proof. reflexivity. Qed.
+From SAV.engine Require Import PoolSeq PoolSeqFrame PoolSeqLeakProofs PoolSeqAccProofs PoolSeqAcc2Proofs.
+Open Scope Z_scope.
+
+(* ---------------------------------------------------------------- no_leak
+   every pool class, every configuration, every history of harness operations, every fault script:
+   if no BaseException escaped a DBAPI close() and none hit the reset that the garbage collector runs
+   for a dropped checkout ([taint] = false), then once every holder has dropped its reference no
+   record is checked out. *)
+Theorem c26_no_leak : forall cf fl ops,
+  let s := run cf ops (init cf fl) in
+  taint s = false -> all_released s -> inuse_count s = O.
+Proof. exact no_leak. Qed.
+Print Assumptions c26_no_leak.
+
+(* the excluded region is real: a BaseException out of the rollback that the weakref callback runs is
+   swallowed by the interpreter and the record is never checked in (QueuePool(1, 1): one checkout,
+   dropped and collected, rollback raises BaseException) *)
+Theorem c26_no_leak_refuted_baseexception_in_gc_reset : exists cf fl ops,
+  let s := run cf ops (init cf fl) in
+  taint_close s = false /\ all_released s /\ inuse_count s = 1%nat /\ checkedout cf s = 1.
+Proof.
+  exists (mkcfg KQueue 1 1 false (-1) false false RRollback true), [0; 2], [(OConnect, 1); (ODel 0, 1)].
+  vm_compute. repeat split; auto. intros h [H|[]]; auto.
+Qed.
+Print Assumptions c26_no_leak_refuted_baseexception_in_gc_reset.
+
+(* ---------------------------------------------------------------- overflow_consistent (QueuePool)
+   on every path (connect failures, failing pre-ping / checkout listener, errors during reset and
+   close, invalidation, detach, garbage-collected checkouts) the increments and decrements of the
+   overflow counter balance: checkedout() is exactly the number of records in use, idle records never
+   exceed pool_size, overflow stays within [-pool_size, max_overflow] - unless a BaseException has
+   escaped close(). *)
+Theorem c26_overflow_consistent : forall cf, kind cf = KQueue -> 0 <= psize cf -> -1 <= maxov cf ->
+  forall fl ops, let s := run cf ops (init cf fl) in
+  taint_close s = false ->
+  checkedout cf s = Z.of_nat (inuse_count s) /\
+  (0 < psize cf -> checkedin s <= psize cf) /\
+  - psize cf <= overflow s /\ (0 <= maxov cf -> overflow s <= maxov cf).
+Proof. intros cf KQ PS MO. exact (overflow_consistent cf KQ PS MO). Qed.
+Print Assumptions c26_overflow_consistent.
+
+(* consequence of the two: all holders released => checkedout() = 0 *)
+Theorem c26_no_leak_checkedout : forall cf, kind cf = KQueue -> 0 <= psize cf -> -1 <= maxov cf ->
+  forall fl ops, let s := run cf ops (init cf fl) in
+  taint s = false -> all_released s -> checkedout cf s = 0.
+Proof. intros cf KQ PS MO. exact (no_leak_checkedout cf KQ PS MO). Qed.
+Print Assumptions c26_no_leak_checkedout.
+
+(* the excluded region is real: two BaseExceptions out of close() during one checkout (recycle on
+   checkout closes the stale connection: BaseException; _checkin_failed invalidates: close() again:
+   BaseException) skip the check-in: the slot is lost for good (checkedout() = 1 with nothing in use) *)
+Theorem c26_overflow_refuted_baseexception_from_close : exists cf fl ops,
+  kind cf = KQueue /\ 0 <= psize cf /\ -1 <= maxov cf /\
+  let s := run cf ops (init cf fl) in
+  inuse_count s = O /\ all_released s /\ checkedout cf s = 1.
+Proof.
+  exists (mkcfg KQueue 1 (-1) true 0 true false RCommit true), [0; 2; 2], [(OConnect, 1)].
+  vm_compute. repeat split; auto; try discriminate. intros h [].
+Qed.
+Print Assumptions c26_overflow_refuted_baseexception_from_close.
+
+(* ---------------------------------------------------------------- refutations of the remaining clauses
+   (the positive theorems ledger / no_dead_reuse are not part of this file yet: see LEVEL_NOTE) *)
+
+(* a connection on which close() was called is handed out again: the checkout listener raises
+   InvalidatePoolError, the invalidation's close() raises BaseException, the record keeps the
+   connection and goes back to the pool through the garbage-collected fairy *)
+Theorem c26_no_dead_reuse_refuted_baseexception_from_close : exists cf fl ops c s',
+  step cf OConnect 1 (run cf ops (init cf fl)) = (Ok (Z.of_nat c), s') /\ 0 < c_nclose s' c.
+Proof.
+  exists (mkcfg KQueue 2 0 false (-1) true true RRollback true), [0; 4; 2], [(OConnect, 1)], 0%nat.
+  eexists. split; [vm_compute; reflexivity|vm_compute; reflexivity].
+Qed.
+Print Assumptions c26_no_dead_reuse_refuted_baseexception_from_close.
+
+(* equal time stamps (the clock does not advance between the state changes): a soft-invalidated
+   connection, and one older than a pool-wide invalidation, are handed out again - the weakness the
+   comment in get_connection concedes *)
+Theorem c26_equal_stamp_reuse_possible :
+  (exists cf fl ops c s', tick cf = false /\
+     step cf OConnect 1 (run cf ops (init cf fl)) = (Ok (Z.of_nat c), s') /\
+     c_soft s' c = true /\ c_nclose s' c = 0) /\
+  (exists cf fl ops c s', tick cf = false /\
+     step cf OConnect 1 (run cf ops (init cf fl)) = (Ok (Z.of_nat c), s') /\
+     c_mark s' c = true /\ c_nclose s' c = 0).
+Proof.
+  split.
+  - exists (mkcfg KQueue 1 0 false (-1) false false RRollback false), [],
+      [(OConnect, 1); (OInvalidate 0 true, 0); (OClose 0, 1)], 0%nat.
+    eexists. split; [reflexivity|]. split; [vm_compute; reflexivity|]. split; vm_compute; reflexivity.
+  - exists (mkcfg KQueue 2 0 false (-1) false false RRollback false), [],
+      [(OConnect, 1); (OConnect, 0); (OClose 1, 0); (OPoolInvalidate 0, 0)], 1%nat.
+    eexists. split; [reflexivity|]. split; [vm_compute; reflexivity|]. split; vm_compute; reflexivity.
+Qed.
+Print Assumptions c26_equal_stamp_reuse_possible.
+
+(* StaticPool drops its record when it finds it soft-invalidated (or older than a pool invalidation)
+   and never closes the connection the record still holds: open, not idle, not held *)
+Theorem c26_ledger_refuted_staticpool : exists cf fl ops,
+  kind cf = KStatic /\
+  let s := run cf ops (init cf fl) in
+  taint s = false /\ c_nclose s 0 = 0 /\ c_det s 0 = false /\
+  (forall r, (r < nrecs s)%nat -> r_dbc s r = Some 0%nat -> static s <> Some r /\ r_fairy s r = None).
+Proof.
+  exists (mkcfg KStatic 1 0 false (-1) false false RRollback true), [],
+    [(OConnect, 1); (OInvalidate 0 true, 1); (OClose 0, 1); (OConnect, 1)].
+  split; [reflexivity|]. cbv zeta.
+  split; [vm_compute; reflexivity|]. split; [vm_compute; reflexivity|]. split; [vm_compute; reflexivity|].
+  intros r Hr Hd. destruct r as [|[|r]].
+  - vm_compute. split; [discriminate|reflexivity].
+  - vm_compute in Hd. discriminate.
+  - vm_compute in Hr. exfalso. apply le_S_n, le_S_n in Hr. inversion Hr.
+Qed.
+Print Assumptions c26_ledger_refuted_staticpool.
+
+(* ---------------------------------------------------------------- non-vacuity *)
+(* an untainted history with faults at connect, reset, ping and the listener, every holder released *)
+Example c26_ex_history :
+  let cf := mkcfg KQueue 1 1 false 3 true true RRollback true in
+  let s := run cf [(OConnect, 1); (OConnect, 1); (OClose 0, 5); (OConnect, 1); (ODel 1, 1); (OClose 2, 1); (ODel 0, 1); (ODel 2, 1)]
+               (init cf [0; 3; 0; 0; 1; 0; 4; 0; 0; 1]) in
+  taint s = false /\ all_released s /\ (nconns s = 4)%nat /\ checkedout cf s = 0.
+Proof.
+  vm_compute. repeat split; auto. intros h Hin.
+  repeat (destruct Hin as [Hin|Hin]; [symmetry; exact Hin|]). destruct Hin.
+Qed.
